@@ -114,3 +114,18 @@ claim('C11',
                   'process only with a reservation; _can_accept_part acquires atomically (C09 contract) or registers to wait exactly '
                   'once; _fail and _release_resources_if_idle give everything back and reset the field; finishing schedules the '
                   'release check at the same instant; shutdown keeps parts and resources.')
+
+claim('C05',
+      assumptions=[
+          A2 + '; np.nextafter(now, inf) - now is an abstract ulp(now) > 0 (the "one unit of rounding" of the property)',
+          A4,
+          'a batch is not mutated while it is stored in a buffer nor while the buffer\'s receive callbacks run (rely of Buffer); '
+          'with it, the ghost count _g_stored (updated exactly where _buffer is appended to / popped) is the number of stored parts '
+          '(hand lemma: sum by construction)',
+          'A3: sorted() returns a permutation of the downstream list ordered by the waiting-since key',
+      ],
+      explanation='Buffer invariant (level == ghost count of stored parts <= capacity, arrival stamps ordered and not in the '
+                  'future, slots empty between activations); give_part accepts iff level + part count <= capacity and appends '
+                  '(now, item) at the back; _pass_part_downstream (nested loops) removes a prefix only: each item after a True '
+                  'answer for exactly that item, only if its remaining wait <= ulp(now), one level record per removal; afterwards '
+                  'remaining items wait for space or for their delay.')
